@@ -1,6 +1,6 @@
 (** * C05: entry points for the unit correspondence check (float instance). *)
 From Coq Require Import ZArith List Floats Bool.
-From Celer Require Import Base.Num Base.NumF Base.Vec3 C01.LedgerModel C01.Run C05.StepModel C05.StatusCheck C05.Boundary.
+From Celer Require Import Base.Num Base.NumF Base.Vec3 C01.LedgerModel C01.Run C05.StepModel C05.StatusCheck C05.Boundary Base.Stream C05.MscLimit.
 Import ListNotations.
 
 Definition blank (st : status) (step : float) (post : paction) (E : float) (mfp time : float) : sim float :=
@@ -100,3 +100,15 @@ Definition run_statuscheck (tbl : list (Z * Z)) (order : Z) (ps pp pa : Z) (cs :
 Definition run_errored (st : Z) (post : Z) (step : float) :=
   let s := apply_errored (blank (status_of st) step (paction_of post) 1%float 1%float 0%float) in
   (status_code (mstat s), paction_code (mpost s), mstep s).
+
+(** UrbanMscSafetyStepLimit (constructor's limit_ + operator()) and UrbanMscMinimalStepLimit
+    (operator() on the stored range_init): (true path limit, random numbers consumed) *)
+Definition out_msc (n : nat) (o : option (float * list float)) : float * Z :=
+  match o with
+  | Some (r, rest) => (r, Z.of_nat (n - length rest))
+  | None => ((-1)%float, (-1)%Z)
+  end.
+Definition run_msclimit (phys_step range safety rf ri sf lmin : float) (us : list float) :=
+  out_msc (length us) (msc_true_path_limit phys_step (safety_limit range safety rf ri sf lmin) lmin us).
+Definition run_msclimit_min (phys_step limit lmin : float) (us : list float) :=
+  out_msc (length us) (msc_true_path_limit phys_step limit lmin us).
